@@ -3,5 +3,5 @@ CONSTANTS
   Keys = {"rsa4096", "rsa3072p", "ed25519", "ecdsa"}
   MaxSteps = 6
 INVARIANTS NoVerifyWhenTampered AtMostOneKey
-PROPERTY PayloadStays
+PROPERTY PayloadStays DigestKept
 CHECK_DEADLOCK FALSE
